@@ -283,7 +283,7 @@ class AntexParser(ChainParser):
             cache["noazi"] = [float(v) for v in values]
         else:
             del values[0]
-            cache.setdefault("azi", list()).append(values)
+            cache.setdefault("azi", list()).append([float(v) for v in values])
 
     def parse_num_of_frequencies(self, line: Dict[str, str], cache: Dict[str, Any]) -> None:
         """Parse '# OF FREQUENCIES' entry of ANTEX antenna section.
